@@ -338,21 +338,24 @@ Definition xnfa_step (acc : option sx) (o : option nat) : option sx :=
    characters (codes 0-12) and not a whitespace character (14, 15) *)
 Definition sym_ok (a : nat) : bool := Nat.leb 13 a && negb (Nat.eqb a 14) && negb (Nat.eqb a 15).
 
-(* properly parenthesised trees: l = 1 anything, l = 2 no '|' outside parentheses,
-   l = 3 neither '|' nor a concatenation outside parentheses; the empty string only alone
-   or as "()" *)
-Fixpoint wfl (l : nat) (r : sx) : bool :=
+(* properly parenthesised trees over the symbols accepted by [ok]: l = 1 anything, l = 2 no '|'
+   outside parentheses, l = 3 neither '|' nor a concatenation outside parentheses; the empty
+   string only alone or as "()" *)
+Fixpoint wfl (ok : nat -> bool) (l : nat) (r : sx) : bool :=
   match r with
   | XEps => false
-  | XSym a => sym_ok a
-  | XAlt a b => Nat.leb l 1 && wfl 1 a && wfl 2 b
-  | XCat a b => Nat.leb l 2 && wfl 2 a && wfl 3 b
-  | XStar a => wfl 3 a
-  | XOpt a => wfl 3 a
-  | XParen a => match a with XEps => true | _ => wfl 1 a end
+  | XSym a => ok a
+  | XAlt a b => Nat.leb l 1 && wfl ok 1 a && wfl ok 2 b
+  | XCat a b => Nat.leb l 2 && wfl ok 2 a && wfl ok 3 b
+  | XStar a => wfl ok 3 a
+  | XOpt a => wfl ok 3 a
+  | XParen a => match a with XEps => true | _ => wfl ok 1 a end
   end.
 
-Definition wf_lab (r : sx) : bool := is_xeps r || wfl 1 r.
+Definition wf_lab (ok : nat -> bool) (r : sx) : bool := is_xeps r || wfl ok 1 r.
+
+(* the symbols a source automaton may use: ordinary characters, listed in its alphabet *)
+Definition sym_in (sigma : list nat) (a : nat) : bool := sym_ok a && memb a sigma.
 
 (* Python dicts cannot have two equal keys: the rows of an NFA list every symbol once *)
 Fixpoint onodupb (l : list (option nat)) : bool :=
